@@ -64,6 +64,20 @@ EDITS = [
      "            hist_len = buf_len\n", "R-C01-reflection-depth"),
     ("C01", "short first utterance still framed by finalize", "compute.py", "        elif buf_len < frame_length // 2 + 1:\n",
      "        elif buf_len < frame_length // 2:\n", "R-C01-short-signal"),
+    ("C07", "gammatone frequency response: wrong sign of the shift phase", "filters.py", "        numer = np.exp(-1j * omega * offset) * c * math.factorial(n - 1)",
+     "        numer = np.exp(1j * omega * offset) * c * math.factorial(n - 1)", "R-C07-gammatone-pair"),
+    ("C07", "triangular impulse: edge terms swapped", "filters.py", "                numer -= (right - mid) / div_term * np.exp(1j * left * t)\n                numer -= (mid - left) / div_term * np.exp(1j * right * t)",
+     "                numer -= (mid - left) / div_term * np.exp(1j * left * t)\n                numer -= (right - mid) / div_term * np.exp(1j * right * t)", "R-C07-triangle-pair"),
+    ("C03", "energy impulse one sample late", "compute.py", "            dirac_filter[self._translation] = 1", "            dirac_filter[self._translation + 1] = 1", "R-C03-energy-impulse"),
+    ("C03", "power as the square of a complex number", "compute.py", "                y_valid[:] = y_valid * y_valid.conj()", "                y_valid[:] = y_valid * y_valid", "R-C03-power"),
+    ("C02", "default window from the bank's phase", "compute.py", '            if frame_style == "causal":\n                window_function = GammaWindow()\n            else:\n                window_function = HannWindow()\n        else:\n            window_function = alias_factory_subclass_from_arg(\n                WindowFunction, window_function\n            )\n        self._window = window_function.get_impulse_response(self._frame_length)',
+     '            if not bank.is_zero_phase:\n                window_function = GammaWindow()\n            else:\n                window_function = HannWindow()\n        else:\n            window_function = alias_factory_subclass_from_arg(\n                WindowFunction, window_function\n            )\n        self._window = window_function.get_impulse_response(self._frame_length)', "R-C02-default-window"),
+    ("C10", "seed offsets from the salted hash", "command_line.py", "    utt2offset = dict((utt_id, idx) for (idx, utt_id) in enumerate(utt2path))",
+     "    utt2offset = dict((utt_id, hash(utt_id) % 1000003) for utt_id in utt2path)", "R-C10-seed-process-independent"),
+    ("C11", "suffix pattern without end anchor", "util.py", '    elif rfilename.endswith(".wav"):\n        force_as = "wav"',
+     '    elif match(r"^.*\\.(wav)", rfilename):\n        force_as = match(r"^.*\\.(wav)", rfilename).group(1)', "R-C11-dispatch-tables"),
+    ("C17", "entries merged by double-star unpacking", "post.py", "            array[key] = self._stats\n            if compress:\n                np.savez_compressed(wfilename, **array)\n            else:\n                np.savez(wfilename, **array)",
+     "            if compress:\n                np.savez_compressed(wfilename, **array, **{key: self._stats})\n            else:\n                np.savez(wfilename, **array, **{key: self._stats})", "R-C17-entry-replaces"),
     ("C07", "gammatone support end shifted twice", "filters.py", "        return (int(np.floor(offset)), int(np.ceil(right) + offset))",
      "        return (int(np.floor(offset)), int(np.ceil(right) + 2 * offset))", "R-C07-support-frame"),
     ("C15", "stack: feature axis coefficient-major", "post.py", "                feat_slice[time_axis] = slice(i, T, self.num_vectors)",
